@@ -17,6 +17,7 @@ import CookModel.Lemmas.RoundtripRecipe
 import CookModel.Lemmas.RoundtripSections
 import CookModel.Lemmas.RoundtripDocRecipe
 import CookModel.Lemmas.RoundtripRefs
+import CookModel.Lemmas.InterRefSpec
 import CookModel.Lemmas.ClosingStream
 import CookModel.Lemmas.CollectorRefIff
 import CookModel.Lemmas.CollectorShape
@@ -1269,5 +1270,53 @@ example : (parseEvents C01_toyEnv [] [.start .step, .ingredient C01_exSalt1, .in
       (fun c => (c.ingredients.toList.map (·.relation), c.sections, c.diags.toList)) =
     some ([⟨.definition [1] true, none⟩, ⟨.reference 0, some .ingredient⟩],
           [⟨none, [.step ⟨[.ingredient 0, .ingredient 1], 1⟩]⟩], []) := by rfl
+
+/-! ### intermediate-preparation references: the target in closed form -/
+
+/-- **What `&(=k)` / `&(~k)` resolve to.**  `resolve_intermediate_ref` (`interRefTarget`) on the content of
+    the current section (the blocks pushed so far), the number `n` of finished sections and the data of the
+    reference (`val = k`, relative or not, step or section): when it yields a relation then `k ≥ 1` and
+    * step, absolute `&(=k)`: the target index `i` is a position of the section's content holding a step,
+      with exactly `k - 1` steps before it — the k-th step of the section (text paragraphs occupy positions
+      but are not counted);
+    * step, relative `&(~k)`: a step position with exactly `k - 1` steps after it — the k-th step counted
+      back from the step being written;
+    * section, absolute: index `k - 1`, which is `< n`; section, relative: index `n - k`, with `k ≤ n` — the
+      k-th finished section from the start resp. counted back from the current one.
+    So the stored index is the position the printer intended, not merely "some earlier step"
+    (`C06_step_reference_target`). -/
+theorem C01_intermediate_target_spec (content : List Content) (n : Nat) (d : InterData) (rel : IngredientRelation)
+    (h : interRefTarget content n d = .ok rel) :
+    1 ≤ d.val.toNat ∧
+    ((d.isSection = false ∧ d.relative = false ∧ ∃ i st, rel = ⟨.reference i, some .step⟩ ∧
+        content[i]? = some (.step st) ∧ ((content.take i).filter Content.isStep).length = d.val.toNat - 1) ∨
+     (d.isSection = false ∧ d.relative = true ∧ ∃ i st, rel = ⟨.reference i, some .step⟩ ∧
+        content[i]? = some (.step st) ∧ ((content.drop (i + 1)).filter Content.isStep).length = d.val.toNat - 1) ∨
+     (d.isSection = true ∧ d.relative = false ∧ rel = ⟨.reference (d.val.toNat - 1), some .section⟩ ∧
+        d.val.toNat - 1 < n) ∨
+     (d.isSection = true ∧ d.relative = true ∧ rel = ⟨.reference (n - d.val.toNat), some .section⟩ ∧
+        d.val.toNat ≤ n)) :=
+  irs_interRefTarget_spec content n d rel h
+
+/-- the `intermediate_data` branch of `ingredient` stores exactly that relation, computed against the
+    current section and the finished sections of the collector at the moment of the event (or leaves the
+    ingredient as written when the reference does not resolve, with an error).  Partial: the link from
+    the printed document to "the content of the current section at that moment" (the steps printed before
+    in the same section) is given only for documents without references (`C01_recipe_doc`). -/
+theorem C01_intermediate_ref_value_partial {α : Type} [Arith α] (i : PIngredient α)
+    (igr : Ingredient (ScalableValue α)) (d : Loc InterData) (s : Col α) :
+    (ingrInter i igr d s).1 = igr ∨
+    ∃ rel, interRefTarget s.cur.content s.sections.length d.val = .ok rel ∧
+      (ingrInter i igr d s).1 = { igr with relation := rel } :=
+  ingrInter_val i igr d s
+
+/-! examples: content `step, text, step`; `&(~1)` is position 2 (the last step), `&(=1)` position 0, `&(~2)`
+    position 0 (the text paragraph in between is skipped), `&(=3)` does not exist -/
+example : interRefTarget [.step ⟨[.text ['a']], 1⟩, .text ['x'], .step ⟨[.text ['b']], 2⟩] 0 ⟨true, false, 2⟩ =
+    .ok ⟨.reference 0, some .step⟩ := by rfl
+example : interRefTarget [.step ⟨[.text ['a']], 1⟩, .text ['x'], .step ⟨[.text ['b']], 2⟩] 0 ⟨false, false, 2⟩ =
+    .ok ⟨.reference 2, some .step⟩ := by rfl
+example : interRefTarget [.step ⟨[.text ['a']], 1⟩, .text ['x'], .step ⟨[.text ['b']], 2⟩] 0 ⟨false, false, 3⟩ =
+    .error "inter-ref-bounds" := by rfl
 
 end Cook
